@@ -95,6 +95,9 @@ SCOPE_TRUST = [
     "specification: Lua 5.1 scoping as an independent resolver (Scope/LuaEvents.v, Scope/Spec.v) with the known classes computed by the specification itself",
     "the syntax tree is taken from full_moon (harness/src/astdump.rs prints it as a Gallina term); programs outside the Lua 5.1 fragment are skipped",
     "PENDING PROOF: model-satisfies-specification outside the known classes (env_agrees) is evaluated on every case, not yet proved",
+    "unused_variable is modelled (Lints/Unused.v) over the model's arenas, the tree (Variable.value, Reference.indexing, within_function_stmt are "
+    "recomputed from it) and the library (Std/FindGlobal.v); its verdicts are compared with the real ones declaration by declaration; the "
+    "ignore_pattern regex is evaluated by the harness (the set of matching variable names is passed to the model)",
 ]
 
 
@@ -111,7 +114,11 @@ class C01(Prop):
     classes = {"K1": 1, "K2": 2, "K3": 4, "K4": 8, "K5": 16}
     rule = ("grammar-directed Lua 5.1 programs over a pool of 3-6 reused names plus library roots and unknown globals: every "
             "statement kind, nesting <= 4, multi-name locals with missing/surplus expressions, closures in initialisers and "
-            "loop headers, methods, varargs, global assignments at every depth, empty else arms; the real ScopeManager "
+            "loop headers, methods, varargs, global assignments at every depth, empty else arms, arms that are a `return` only, "
+            "locals initialised with table constructors, static-name / dynamic writes into them, library call statements "
+            "(`table.insert`, `rawset`, ...) with bare-identifier arguments, `table` sometimes a script name; a fifth of the cases are small "
+            "programs aimed at unused_variable (one or two locals, 22 statement shapes, `table` shadowed by a local or parameter, the library's "
+            "`table` used before or after); unused_variable runs under 8 (ignore_pattern, allow_unused_self) settings; the real ScopeManager "
             "(every reference and variable, arena order) and the three lints' diagnostics are compared with the model and "
             "judged by the specification's zones; non-trivial = at least one variable and two references; distinct = distinct sources")
     trusted_base = SCOPE_TRUST
@@ -204,10 +211,11 @@ class C07(Prop):
     classes = {}
     rule = ("matrix: 12 library roots (functions, tables, must_use / deprecated members, deprecated parameters) x 9 binding "
             "constructs (local with/without value, multi-name local, local function, parameter of a local function / of a function "
-            "expression, numeric for, generic for first/second name) x 14 use shapes (read, field, deep field, call statement, field "
-            "call, method call, assignments, deprecated member, bad argument, nil argument, nested argument, multiple assignment), each "
+            "expression, numeric for, generic for first/second name) x 24 use shapes (read, field, deep field, call statement, field "
+            "call, method call, assignments, deprecated member, bad argument, nil argument, nested argument, multiple assignment, "
+            "table-call argument, table constructor fields and keys, operands, method arguments, parenthesised prefix, string call, loop condition, for bounds, closure body), each "
             "inside and outside the scope; quick samples the matrix (every binding x use pair at least once), thorough enumerates all "
-            "1512 combinations; the scope model's gate is evaluated on both trees; non-trivial = the blanked-out baseline has a diagnostic")
+            "2592 combinations; the scope model's gate is evaluated on both trees; non-trivial = the blanked-out baseline has a diagnostic")
     trusted_base = SCOPE_TRUST[:3] + [
         "proved: the gate drops exactly the nodes whose leading identifier resolved; renaming a binding away preserves every resolution status",
         "the three lints' visit lists are oracles (what they say at a node is not modelled here; C05/C06 model the checks themselves)",
